@@ -42,7 +42,8 @@ def gen_events(rng, n, rows, cols):
             # bias to the actions with state behind them
             ev.append(("key", rng.choice(KEYNAMES + ["F3", "F3", "Down", "Down", "Up", "Enter", "Enter", "F1", "Tab"])))
         elif r < 0.80:
-            kind = rng.choice(["down", "up", "drag", "drag", "scrollup", "scrolldown", "rightdown", "move"])
+            kind = rng.choice(["down", "up", "drag", "drag", "scrollup", "scrolldown", "rightdown", "move", "down", "up", "drag", "scrollup", "scrolldown",
+                               "middledown", "middleup", "rightup", "rightdrag", "scrollleft", "scrollright", "shiftdown", "ctrldrag", "altscrollup"])
             where = rng.random()
             if where < 0.3:
                 c, rw = rng.randrange(0, 52), rng.randrange(0, 5)      # tab bar hit boxes
